@@ -360,7 +360,36 @@ var settingVals = map[string][]string{
 		`<ObjectLockConfiguration><ObjectLockEnabled>Enabled</ObjectLockEnabled><Rule><DefaultRetention><Mode>COMPLIANCE</Mode><Years>2</Years></DefaultRetention></Rule></ObjectLockConfiguration>`,
 		`<ObjectLockConfiguration><ObjectLockEnabled>Enabled</ObjectLockEnabled></ObjectLockConfiguration>`,
 	},
-	"acl": {"id=bob", "id=bob,id=carol", ""},
+	"acl": {"id=bob", "id=bob,id=carol", "", "xml:bob=READ,bob=WRITE", "xml:carol=READ_ACP,bob=READ,carol=WRITE,bob=WRITE_ACP", "xml:bob=FULL_CONTROL"},
+}
+
+// aclGrants: the (grantee, permission) pairs an ACL value of the settings machine stands for
+func aclGrants(val string) map[string]bool {
+	out := map[string]bool{}
+	if strings.HasPrefix(val, "xml:") {
+		for _, g := range strings.Split(val[4:], ",") {
+			out[g] = true
+		}
+		return out
+	}
+	for _, g := range strings.Split(val, ",") {
+		if id, ok := strings.CutPrefix(g, "id="); ok {
+			out[id+"=READ"] = true
+		}
+	}
+	return out
+}
+
+// aclBody: the AccessControlPolicy document of an "xml:" value, one Grant element per pair (a grantee may have several)
+func aclBody(val, owner string) []byte {
+	var sb strings.Builder
+	sb.WriteString("<AccessControlPolicy><Owner><ID>" + owner + "</ID></Owner><AccessControlList>")
+	for _, g := range strings.Split(val[4:], ",") {
+		id, perm, _ := strings.Cut(g, "=")
+		sb.WriteString(`<Grant><Grantee xmlns:xsi="http://www.w3.org/2001/XMLSchema-instance" xsi:type="CanonicalUser"><ID>` + id + "</ID></Grantee><Permission>" + perm + "</Permission></Grant>")
+	}
+	sb.WriteString("</AccessControlList></AccessControlPolicy>")
+	return []byte(sb.String())
 }
 
 var settingQuery = map[string]string{"tagging": "tagging", "policy": "policy", "ownership": "ownershipControls", "versioning": "versioning", "lock": "object-lock", "acl": "acl"}
@@ -462,7 +491,11 @@ func runS(c caseS) error {
 				if val == "" {
 					h = []s3c.KV{{K: "x-amz-acl", V: "private"}}
 				}
-				r = cl.MustCall("PUT", "/"+b, q, h, nil)
+				if strings.HasPrefix(val, "xml:") {
+					r = cl.MustCall("PUT", "/"+b, q, nil, aclBody(val, gw.DefaultRoot.Access))
+				} else {
+					r = cl.MustCall("PUT", "/"+b, q, h, nil)
+				}
 			}
 			if r.OK() {
 				model[o.Setting] = val
@@ -538,11 +571,24 @@ func runS(c caseS) error {
 					}
 					continue
 				}
-				for _, id := range []string{"bob", "carol"} {
-					should := strings.Contains(want, "id="+id)
-					is := strings.Contains(string(r.Body), "<ID>"+id+"</ID>")
-					if r.OK() && should != is {
-						return fmt.Errorf("%s: ACL reads back with grantee %s present=%v, last written grants %q: %q", where, id, is, want, r.Body)
+				if r.OK() {
+					var doc struct {
+						Grants []struct {
+							ID   string `xml:"Grantee>ID"`
+							Perm string `xml:"Permission"`
+						} `xml:"AccessControlList>Grant"`
+					}
+					if err := xml.Unmarshal(r.Body, &doc); err != nil {
+						return fmt.Errorf("%s: unparsable ACL %q", where, r.Body)
+					}
+					got := map[string]bool{}
+					for _, g := range doc.Grants {
+						if g.ID == "bob" || g.ID == "carol" {
+							got[g.ID+"="+g.Perm] = true
+						}
+					}
+					if fmt.Sprint(got) != fmt.Sprint(aclGrants(want)) {
+						return fmt.Errorf("%s: the ACL reads back with grants %v, last written were %v: %q", where, got, aclGrants(want), r.Body)
 					}
 				}
 			}
@@ -556,7 +602,7 @@ func TestC16Settings(t *testing.T) {
 		opg := rapid.Custom(func(t *rapid.T) opS {
 			return opS{Kind: rapid.SampledFrom([]string{"put", "put", "put", "get", "get", "get", "delete", "restart", "recreate"}).Draw(t, "kind"),
 				Setting: rapid.SampledFrom([]string{"tagging", "policy", "acl", "ownership", "versioning", "lock"}).Draw(t, "setting"),
-				Val:     rapid.IntRange(0, 2).Draw(t, "val")}
+				Val:     rapid.IntRange(0, 5).Draw(t, "val")}
 		})
 		c := caseS{Ops: rapid.SliceOfN(opg, 2, 16).Draw(t, "ops"), Sidecar: rapid.Bool().Draw(t, "sidecar")}
 		ev.Trace("C16S", c)
